@@ -253,10 +253,12 @@ Proof.
   - intros o H. apply andb_true_iff in H. destruct H as [H _]. now apply negb_true_iff in H.
 Qed.
 
-Lemma step_fst : forall fl s o, fst (step fl s o) = fst (step_core s o).
-Proof. intros. unfold step. now destruct (step_core s o). Qed.
-Lemma step_snd : forall fl s o, snd (step fl s o) = order fl (snd (step_core s o)).
-Proof. intros. unfold step. now destruct (step_core s o). Qed.
+Lemma step_fst : forall fl s o, fst (step fl s o) = fst (step_core fl s o).
+Proof. intros. unfold step. now destruct (step_core fl s o). Qed.
+Lemma step_snd : forall fl s o, is_event o = false -> snd (step fl s o) = order fl (snd (step_core fl s o)).
+Proof. intros fl s o H. unfold step. rewrite H. now destruct (step_core fl s o). Qed.
+Lemma step_snd_event : forall fl s ev, snd (step fl s (OpEvent ev)) = snd (step_core fl s (OpEvent ev)).
+Proof. intros. unfold step. simpl. now destruct (step_core fl s (OpEvent ev)). Qed.
 
 (* ------------------------------------------------------------------ more list facts *)
 Lemma nodup_snoc : forall (l : list N) x, NoDup l -> ~ In x l -> NoDup (l ++ [x]).
@@ -653,11 +655,25 @@ Qed.
 (* one call: exactly one invocation, of that entry, with exactly the arguments handed in *)
 Lemma invoke_invocations : forall s e a kw, invocations (snd (invoke s e a kw)) = [(se_label e, a, kw)].
 Proof.
-  intros s e a kw. unfold invoke. destruct (negb (accepts (h_sig (se_handler e)) kw)); [reflexivity|].
+  intros s e a kw. unfold invoke. destruct (negb (accepts (h_sig (se_handler e)) (length a) kw)); [reflexivity|].
+  destruct (ill_typed (se_handler e)); [reflexivity|].
   destruct (h_beh (se_handler e)) as [| |ts]; try reflexivity.
   pose proof (body_unsub_no_invoke ts s) as B. destruct (body_unsub s ts) as [[s1 o1] x]. simpl in *.
   rewrite invocations_app, B. destruct x; reflexivity.
 Qed.
+
+Definition ri_state (x : sess * list out * list out * list out) : sess := fst (fst (fst x)).
+Fixpoint later_of (its : list item) : list subent :=
+  match its with [] => [] | INow _ :: r => later_of r | ILater e :: r => e :: later_of r end.
+
+Lemma now_outs_app : forall a b, now_outs (a ++ b) = now_outs a ++ now_outs b.
+Proof. induction a as [|[o|e] r IH]; intros; simpl; rewrite ?IH; reflexivity. Qed.
+Lemma now_outs_map : forall os, now_outs (map INow os) = os.
+Proof. induction os; simpl; congruence. Qed.
+Lemma later_of_app : forall a b, later_of (a ++ b) = later_of a ++ later_of b.
+Proof. induction a as [|[o|e] r IH]; intros; simpl; rewrite ?IH; reflexivity. Qed.
+Lemma later_of_map : forall os, later_of (map INow os) = [].
+Proof. induction os; simpl; auto. Qed.
 
 Section Dispatch.
 Variable P : sess -> Prop.
@@ -677,44 +693,93 @@ Qed.
 
 Lemma invoke_preserves : forall s e a kw, P s -> P (fst (invoke s e a kw)).
 Proof.
-  intros s e a kw Hs. unfold invoke. destruct (negb (accepts (h_sig (se_handler e)) kw)); [exact Hs|].
+  intros s e a kw Hs. unfold invoke. destruct (negb (accepts (h_sig (se_handler e)) (length a) kw)); [exact Hs|].
+  destruct (ill_typed (se_handler e)); [exact Hs|].
   destruct (h_beh (se_handler e)) as [| |ts]; try exact Hs.
   pose proof (body_unsub_preserves ts s Hs) as H. destruct (body_unsub s ts) as [[s1 o1] x]. exact H.
 Qed.
 
-Lemma deliver_preserves : forall snap ev s, P s -> P (fst (deliver snap ev s)).
+Lemma deliver_preserves : forall fl snap ev s, P s -> P (fst (deliver fl snap ev s)).
 Proof.
-  induction snap as [|e r IH]; intros ev s Hs; simpl; [exact Hs|].
+  intros fl. induction snap as [|e r IH]; intros ev s Hs; simpl; [exact Hs|].
   destruct (is_active s (se_label e)); [|now apply IH].
-  pose proof (invoke_preserves s e (e_args ev) (build_kwargs e ev) Hs) as H1.
-  destruct (invoke s e (e_args ev) (build_kwargs e ev)) as [s1 o1]. simpl in H1.
-  specialize (IH ev s1 H1). destruct (deliver r ev s1) as [s2 o2]. exact IH.
+  destruct (deferred fl e).
+  - specialize (IH ev s Hs). destruct (deliver fl r ev s) as [s2 i2]. exact IH.
+  - pose proof (invoke_preserves s e (e_args ev) (build_kwargs e ev) Hs) as H1.
+    destruct (invoke s e (e_args ev) (build_kwargs e ev)) as [s1 o1]. simpl in H1.
+    specialize (IH ev s1 H1). destruct (deliver fl r ev s1) as [s2 i2]. exact IH.
 Qed.
 
-(* every invocation made during a dispatch is of a subscription that is active, at that moment, in a state satisfying P *)
-Lemma deliver_invoked : forall snap ev s l, P s ->
-  In l (invoked_labels (snd (deliver snap ev s))) -> exists s', P s' /\ is_active s' l = true.
+Lemma run_items_preserves : forall ev its s, P s -> P (ri_state (run_items ev s its)).
 Proof.
-  induction snap as [|e r IH]; intros ev s l Hs Hin; simpl in Hin; [destruct Hin|].
+  intros ev. induction its as [|[o|e] r IH]; intros s Hs; simpl; [exact Hs| |].
+  - specialize (IH s Hs). destruct (run_items ev s r) as [[[s2 g0] g1] g2]. destruct (is_immediate o); exact IH.
+  - pose proof (invoke_preserves s e (e_args ev) (build_kwargs e ev) Hs) as H1.
+    destruct (invoke s e (e_args ev) (build_kwargs e ev)) as [s1 o1]. simpl in H1.
+    specialize (IH s1 H1). destruct (run_items ev s1 r) as [[[s2 g0] g1] g2]. exact IH.
+Qed.
+
+Lemma on_event_preserves : forall fl s ev, P s -> P (fst (on_event fl s ev)).
+Proof.
+  intros fl s ev Hs. unfold on_event. destruct (lookup (e_sub ev) (s_subs s)) as [lst|]; [|exact Hs].
+  pose proof (deliver_preserves fl lst ev s Hs) as H1. destruct (deliver fl lst ev s) as [s1 its]. simpl in H1.
+  destruct fl; [exact H1|].
+  pose proof (run_items_preserves ev its s1 H1) as H2. destruct (run_items ev s1 its) as [[[s2 g0] g1] g2]. exact H2.
+Qed.
+
+(* every call made by a dispatch - inside the loop or as a Task - is of a subscription that is active, when its turn
+   comes, in a state satisfying P *)
+Lemma deliver_invoked : forall fl snap ev s l, P s ->
+  In l (invoked_labels (now_outs (snd (deliver fl snap ev s)))) \/ In l (labels (later_of (snd (deliver fl snap ev s)))) ->
+  exists s', P s' /\ is_active s' l = true.
+Proof.
+  intros fl. induction snap as [|e r IH]; intros ev s l Hs Hin; simpl in Hin; [destruct Hin as [[]|[]]|].
   destruct (is_active s (se_label e)) eqn:Ea; [|now apply (IH ev s l Hs)].
-  pose proof (invoke_preserves s e (e_args ev) (build_kwargs e ev) Hs) as H1.
-  pose proof (invoke_invocations s e (e_args ev) (build_kwargs e ev)) as Hi.
-  destruct (invoke s e (e_args ev) (build_kwargs e ev)) as [s1 o1]. simpl in H1, Hi.
-  specialize (IH ev s1 l H1). destruct (deliver r ev s1) as [s2 o2]. simpl in *.
-  rewrite invoked_labels_app, in_app_iff in Hin. destruct Hin as [Hin|Hin]; [|now apply IH].
-  unfold invoked_labels in Hin. rewrite Hi in Hin. simpl in Hin. destruct Hin as [<-|[]]. eauto.
+  destruct (deferred fl e).
+  - specialize (IH ev s l Hs). destruct (deliver fl r ev s) as [s2 i2]. simpl in *.
+    destruct Hin as [Hin|[Hin|Hin]]; [apply IH; now left | subst l; eauto | apply IH; now right].
+  - pose proof (invoke_preserves s e (e_args ev) (build_kwargs e ev) Hs) as H1.
+    pose proof (invoke_invocations s e (e_args ev) (build_kwargs e ev)) as Hi.
+    destruct (invoke s e (e_args ev) (build_kwargs e ev)) as [s1 o1]. simpl in H1, Hi.
+    specialize (IH ev s1 l H1). destruct (deliver fl r ev s1) as [s2 i2]. simpl in *.
+    rewrite now_outs_app, now_outs_map, invoked_labels_app, in_app_iff, later_of_app, later_of_map in Hin. simpl in Hin.
+    destruct Hin as [[Hin|Hin]|Hin]; [|apply IH; now left | apply IH; now right].
+    unfold invoked_labels in Hin. rewrite Hi in Hin. simpl in Hin. destruct Hin as [<-|[]]. eauto.
 Qed.
 End Dispatch.
 
-Lemma on_event_inv : forall s ev, Inv s -> Inv (fst (on_event s ev)).
+(* what the loop turns after the dispatch contribute *)
+Lemma invocations_filter_nonimm : forall os, invocations (filter (fun o => negb (is_immediate o)) os) = [].
+Proof. intros. apply invocations_filter_not_imm. intros o H. now apply negb_true_iff in H. Qed.
+
+Lemma run_items_invocations : forall ev its s,
+  let '(s2, g0, g1, g2) := run_items ev s its in
+  invocations g0 = invocations (now_outs its) /\ invocations g1 = map (expected_invocation ev) (later_of its) /\
+  invocations g2 = [].
 Proof.
-  intros s ev I. unfold on_event. destruct (lookup (e_sub ev) (s_subs s)); [|exact I].
-  apply deliver_preserves; [apply api_unsubscribe_inv | exact I].
+  intros ev. induction its as [|[o|e] r IH]; intros s; simpl; [tauto| |].
+  - specialize (IH s). destruct (run_items ev s r) as [[[s2 g0] g1] g2]. destruct IH as [A [B C]].
+    destruct o; simpl; rewrite ?A; tauto.
+  - pose proof (invoke_invocations s e (e_args ev) (build_kwargs e ev)) as Hi.
+    destruct (invoke s e (e_args ev) (build_kwargs e ev)) as [s1 o1]. simpl in Hi.
+    specialize (IH s1). destruct (run_items ev s1 r) as [[[s2 g0] g1] g2]. destruct IH as [A [B C]].
+    rewrite !invocations_app, invocations_filter_imm, invocations_filter_nonimm, Hi, B, C. tauto.
 Qed.
 
-Lemma step_core_inv : forall s o, Inv s -> Inv (fst (step_core s o)).
+Lemma deliver_tx_no_later : forall snap ev s, later_of (snd (deliver Tx snap ev s)) = [].
 Proof.
-  intros s o I. unfold step_core. destruct (is_message o && negb (s_joined s)); [exact I|].
+  induction snap as [|e r IH]; intros ev s; simpl; [reflexivity|].
+  destruct (is_active s (se_label e)); [|apply IH].
+  destruct (invoke s e (e_args ev) (build_kwargs e ev)) as [s1 o1]. specialize (IH ev s1).
+  destruct (deliver Tx r ev s1) as [s2 i2]. simpl in *. now rewrite later_of_app, later_of_map.
+Qed.
+
+Lemma on_event_inv : forall fl s ev, Inv s -> Inv (fst (on_event fl s ev)).
+Proof. intros. apply on_event_preserves; [apply api_unsubscribe_inv | assumption]. Qed.
+
+Lemma step_core_inv : forall fl s o, Inv s -> Inv (fst (step_core fl s o)).
+Proof.
+  intros fl s o I. unfold step_core. destruct (is_message o && negb (s_joined s)); [exact I|].
   destruct o; auto using api_subscribe_inv, api_subscribe_obj_inv, api_unsubscribe_inv, on_subscribed_inv,
     on_unsubscribed_inv, on_error_inv, on_event_inv, on_lose_inv.
 Qed.
@@ -722,7 +787,7 @@ Qed.
 Lemma run_inv : forall fl ops s, Inv s -> Inv (fst (run fl s ops)).
 Proof.
   induction ops as [|o r IH]; intros s I; simpl; [exact I|].
-  pose proof (step_core_inv s o I) as I1. rewrite <- (step_fst fl) in I1.
+  pose proof (step_core_inv fl s o I) as I1. rewrite <- (step_fst fl) in I1.
   destruct (step fl s o) as [s1 o1]. simpl in I1. specialize (IH s1 I1).
   destruct (run fl s1 r) as [s2 o2]. exact IH.
 Qed.
@@ -731,8 +796,8 @@ Lemma final_inv : forall fl ops, Inv (final fl ops).
 Proof. intros. apply run_inv, Inv_init. Qed.
 
 (* ------------------------------------------------------------------ C11: exact fan-out *)
-Lemma step_core_event : forall s ev, s_joined s = true -> step_core s (OpEvent ev) = on_event s ev.
-Proof. intros s ev H. unfold step_core. simpl. now rewrite H. Qed.
+Lemma step_core_event : forall fl s ev, s_joined s = true -> step_core fl s (OpEvent ev) = on_event fl s ev.
+Proof. intros fl s ev H. unfold step_core. simpl. now rewrite H. Qed.
 
 Lemma build_kwargs_expected : forall e ev, (se_label e, e_args ev, build_kwargs e ev) = expected_invocation ev e.
 Proof. reflexivity. Qed.
@@ -748,35 +813,77 @@ Definition after_handler (s : sess) (e : subent) (ev : event) : sess :=
 
 (* The dispatch discipline, stated independently of the loop: walk the SNAPSHOT of the handler list taken when the
    event arrived, in subscription order; an entry whose subscription is no longer active when its turn comes (it was
-   unsubscribed by a handler called earlier for this same event) is passed over; every other entry is invoked exactly
-   once with the published args/kwargs plus its own details.  [Dispatch ev s snap invs s'] relates the state at arrival,
-   the snapshot, the invocations made and the state afterwards. *)
-Inductive Dispatch (ev : event) : sess -> list subent -> list invocation -> sess -> Prop :=
-| D_done : forall s, Dispatch ev s [] [] s
-| D_skip : forall s e r invs s', is_active s (se_label e) = false ->
-           Dispatch ev s r invs s' -> Dispatch ev s (e :: r) invs s'
-| D_call : forall s e r invs s', is_active s (se_label e) = true ->
-           Dispatch ev (after_handler s e ev) r invs s' ->
-           Dispatch ev s (e :: r) (expected_invocation ev e :: invs) s'.
+   unsubscribed by a handler called earlier for this same event) is passed over; every other entry is called exactly
+   once with the published args/kwargs plus its own details - at once ([now]), or, for a coroutine handler on asyncio
+   (check_types wrapper), as a Task whose body runs after the loop ([later]).
+   [Dispatch fl ev s snap now later s'] relates the state at arrival, the snapshot, the calls and the state after the loop. *)
+Inductive Dispatch (fl : flavour) (ev : event) : sess -> list subent -> list invocation -> list subent -> sess -> Prop :=
+| D_done : forall s, Dispatch fl ev s [] [] [] s
+| D_skip : forall s e r now later s', is_active s (se_label e) = false ->
+           Dispatch fl ev s r now later s' -> Dispatch fl ev s (e :: r) now later s'
+| D_call : forall s e r now later s', is_active s (se_label e) = true -> deferred fl e = false ->
+           Dispatch fl ev (after_handler s e ev) r now later s' ->
+           Dispatch fl ev s (e :: r) (expected_invocation ev e :: now) later s'
+| D_task : forall s e r now later s', is_active s (se_label e) = true -> deferred fl e = true ->
+           Dispatch fl ev s r now later s' ->
+           Dispatch fl ev s (e :: r) now (e :: later) s'.
 
-Lemma deliver_dispatch : forall ev snap s,
-  Dispatch ev s snap (invocations (snd (deliver snap ev s))) (fst (deliver snap ev s)).
+(* the Tasks run one after the other, each against the state its predecessors left *)
+Inductive RunLater (ev : event) : sess -> list subent -> sess -> Prop :=
+| R_done : forall s, RunLater ev s [] s
+| R_task : forall s e r s', RunLater ev (after_handler s e ev) r s' -> RunLater ev s (e :: r) s'.
+
+Lemma deliver_dispatch : forall fl ev snap s,
+  Dispatch fl ev s snap (invocations (now_outs (snd (deliver fl snap ev s)))) (later_of (snd (deliver fl snap ev s)))
+           (fst (deliver fl snap ev s)).
 Proof.
-  intros ev. induction snap as [|e r IH]; intros s; simpl; [constructor|].
+  intros fl ev. induction snap as [|e r IH]; intros s; simpl; [constructor|].
   destruct (is_active s (se_label e)) eqn:Ea; [|apply D_skip; [exact Ea | apply IH]].
-  pose proof (invoke_invocations s e (e_args ev) (build_kwargs e ev)) as Hi.
-  destruct (invoke s e (e_args ev) (build_kwargs e ev)) as [s1 o1] eqn:Ei. simpl in Hi.
-  assert (Hs1 : after_handler s e ev = s1) by (unfold after_handler; now rewrite Ei).
-  specialize (IH s1). destruct (deliver r ev s1) as [s2 o2]. simpl in *.
-  rewrite invocations_app, Hi. apply (D_call ev s e r _ _ Ea). rewrite Hs1. exact IH.
+  destruct (deferred fl e) eqn:Ed.
+  - specialize (IH s). destruct (deliver fl r ev s) as [s2 i2]. simpl in *. now apply D_task.
+  - pose proof (invoke_invocations s e (e_args ev) (build_kwargs e ev)) as Hi.
+    destruct (invoke s e (e_args ev) (build_kwargs e ev)) as [s1 o1] eqn:Ei. simpl in Hi.
+    assert (Hs1 : after_handler s e ev = s1) by (unfold after_handler; now rewrite Ei).
+    specialize (IH s1). destruct (deliver fl r ev s1) as [s2 i2]. simpl in *.
+    rewrite now_outs_app, now_outs_map, invocations_app, Hi, later_of_app, later_of_map. simpl.
+    apply (D_call fl ev s e r _ _ _ Ea Ed). rewrite Hs1. exact IH.
+Qed.
+
+Lemma run_items_later : forall ev its s, RunLater ev s (later_of its) (ri_state (run_items ev s its)).
+Proof.
+  intros ev. induction its as [|[o|e] r IH]; intros s; simpl; [constructor| |].
+  - specialize (IH s). destruct (run_items ev s r) as [[[s2 g0] g1] g2]. destruct (is_immediate o); exact IH.
+  - destruct (invoke s e (e_args ev) (build_kwargs e ev)) as [s1 o1] eqn:Ei.
+    assert (Hs1 : after_handler s e ev = s1) by (unfold after_handler; now rewrite Ei).
+    specialize (IH s1). destruct (run_items ev s1 r) as [[[s2 g0] g1] g2]. apply R_task. rewrite Hs1. exact IH.
+Qed.
+
+Lemma on_event_dispatch : forall fl s ev lst, lookup (e_sub ev) (s_subs s) = Some lst ->
+  exists now later s1,
+    Dispatch fl ev s lst now later s1 /\ RunLater ev s1 later (fst (on_event fl s ev)) /\
+    invocations (snd (on_event fl s ev)) = now ++ map (expected_invocation ev) later.
+Proof.
+  intros fl s ev lst Hl. unfold on_event. rewrite Hl.
+  pose proof (deliver_dispatch fl ev lst s) as D. pose proof (deliver_tx_no_later lst ev s) as T.
+  destruct fl.
+  - destruct (deliver Tx lst ev s) as [s1 its]. simpl in *. rewrite T in D.
+    exists (invocations (now_outs its)), [], s1. split; [exact D|]. split; [constructor | now rewrite app_nil_r].
+  - clear T. destruct (deliver Aio lst ev s) as [s1 its]. simpl in *.
+    pose proof (run_items_later ev its s1) as R. pose proof (run_items_invocations ev its s1) as V.
+    destruct (run_items ev s1 its) as [[[s2 g0] g1] g2]. destruct V as [A [B C]]. simpl in *.
+    exists (invocations (now_outs its)), (later_of its), s1. split; [exact D|]. split; [exact R|].
+    now rewrite !invocations_app, A, B, C, app_nil_r.
 Qed.
 
 Lemma exact_fanout : forall fl s ev,
   s_joined s = true -> In (e_sub ev) (keys (s_subs s)) ->
-  Dispatch ev s (attached s (e_sub ev)) (invocations (snd (step fl s (OpEvent ev)))) (fst (step fl s (OpEvent ev))).
+  exists now later s1,
+    Dispatch fl ev s (attached s (e_sub ev)) now later s1 /\
+    RunLater ev s1 later (fst (step fl s (OpEvent ev))) /\
+    invocations (snd (step fl s (OpEvent ev))) = now ++ map (expected_invocation ev) later.
 Proof.
-  intros fl s ev Hj Hk. rewrite step_fst, step_snd, invocations_order, step_core_event by exact Hj.
-  unfold on_event. rewrite (attached_lookup s _ Hk). apply deliver_dispatch.
+  intros fl s ev Hj Hk. rewrite step_fst, step_snd_event, step_core_event by exact Hj.
+  apply on_event_dispatch. now apply attached_lookup.
 Qed.
 
 (* consequences of the discipline *)
@@ -785,9 +892,12 @@ Inductive sublist {A} : list A -> list A -> Prop :=
 | sub_skip : forall x l1 l2, sublist l1 l2 -> sublist l1 (x :: l2)
 | sub_keep : forall x l1 l2, sublist l1 l2 -> sublist (x :: l1) (x :: l2).
 
-Lemma dispatch_sublist : forall ev s snap invs s', Dispatch ev s snap invs s' ->
-  sublist invs (map (expected_invocation ev) snap).
-Proof. induction 1; simpl; constructor; assumption. Qed.
+Lemma dispatch_sublist : forall fl ev s snap now later s', Dispatch fl ev s snap now later s' ->
+  sublist now (map (expected_invocation ev) snap) /\ sublist later snap.
+Proof. induction 1; simpl; try destruct IHDispatch; split; constructor; assumption. Qed.
+
+Lemma dispatch_tx_no_task : forall ev s snap now later s', Dispatch Tx ev s snap now later s' -> later = [].
+Proof. induction 1; auto. discriminate. Qed.
 
 Lemma inactive_unsubscribe : forall s l t, is_active s l = false -> is_active (fst (api_unsubscribe s t)) l = false.
 Proof.
@@ -798,50 +908,86 @@ Proof.
      [now rewrite lookup_assoc_set_same | now rewrite lookup_assoc_set_other by exact Hne]).
 Qed.
 
-Lemma dispatch_inactive_stays : forall ev s snap invs s' l, Dispatch ev s snap invs s' ->
-  is_active s l = false -> is_active s' l = false.
+Lemma after_handler_inactive : forall s e ev l, is_active s l = false -> is_active (after_handler s e ev) l = false.
 Proof.
-  induction 1; intros Hl; [exact Hl | auto |].
-  apply IHDispatch. unfold after_handler.
-  apply (invoke_preserves (fun s => is_active s l = false)); [intros; now apply inactive_unsubscribe | exact Hl].
+  intros. unfold after_handler.
+  apply (invoke_preserves (fun s => is_active s l = false)); [intros; now apply inactive_unsubscribe | assumption].
 Qed.
 
-(* no handler that is still subscribed when the dispatch ends has been passed over *)
-Lemma dispatch_no_skip : forall ev s snap invs s', Dispatch ev s snap invs s' ->
-  forall e, In e snap -> is_active s' (se_label e) = true -> In (expected_invocation ev e) invs.
+Lemma dispatch_inactive_stays : forall fl ev s snap now later s' l, Dispatch fl ev s snap now later s' ->
+  is_active s l = false -> is_active s' l = false.
+Proof. induction 1; intros Hl; auto. apply IHDispatch. now apply after_handler_inactive. Qed.
+
+(* no handler that is still subscribed when the loop ends has been passed over *)
+Lemma dispatch_no_skip : forall fl ev s snap now later s', Dispatch fl ev s snap now later s' ->
+  forall e, In e snap -> is_active s' (se_label e) = true -> In (expected_invocation ev e) now \/ In e later.
 Proof.
-  induction 1; intros x Hx Ha; simpl in *; [destruct Hx| |].
+  induction 1; intros x Hx Ha; simpl in *; [destruct Hx| | |].
   - destruct Hx as [<-|Hx]; [|now apply IHDispatch].
-    pose proof (dispatch_inactive_stays _ _ _ _ _ _ H0 H). congruence.
-  - destruct Hx as [<-|Hx]; [now left | right; now apply IHDispatch].
+    pose proof (dispatch_inactive_stays _ _ _ _ _ _ _ _ H0 H). congruence.
+  - destruct Hx as [<-|Hx]; [now left; left|]. destruct (IHDispatch x Hx Ha); [left; now right | now right].
+  - destruct Hx as [<-|Hx]; [right; now left|]. destruct (IHDispatch x Hx Ha); [now left | right; now right].
+Qed.
+
+(* a subscription that is inactive at some point of the loop is not called for the rest of it *)
+Lemma dispatch_never_after : forall fl ev s snap now later s' l, Dispatch fl ev s snap now later s' ->
+  is_active s l = false -> ~ In l (map (fun x => fst (fst x)) now) /\ ~ In l (labels later).
+Proof.
+  induction 1; intros Hl; simpl; [tauto | auto | |].
+  - destruct (IHDispatch (after_handler_inactive _ _ _ _ Hl)) as [A B]. split; [|exact B].
+    intros [Hx|Hx]; [simpl in Hx; congruence | tauto].
+  - destruct (IHDispatch Hl) as [A B]. split; [exact A|]. intros [Hx|Hx]; [congruence | tauto].
 Qed.
 
 Definition reentrant_free (lst : list subent) : Prop := forall e, In e lst -> reentrant e = false.
 Definition nonreentrant_at (s : sess) (sid : N) : Prop := reentrant_free (attached s sid).
+Definition benign (o : out) : bool := negb (is_raised o) && negb (sends_unsubscribe o).
 
 Lemma invoke_nonreentrant : forall s e a kw, reentrant e = false ->
-  exists os, invoke s e a kw = (s, os) /\ filter is_raised os = [] /\ filter sends_unsubscribe os = [].
+  exists os, invoke s e a kw = (s, os) /\ forallb benign os = true.
 Proof.
   intros s e a kw H. unfold invoke, reentrant in *.
-  destruct (negb (accepts (h_sig (se_handler e)) kw)); [eexists; repeat split; reflexivity|].
-  destruct (h_beh (se_handler e)); try discriminate; eexists; repeat split; reflexivity.
+  destruct (negb (accepts (h_sig (se_handler e)) (length a) kw)); [eexists; split; reflexivity|].
+  destruct (ill_typed (se_handler e)); [eexists; split; reflexivity|].
+  destruct (h_beh (se_handler e)); try discriminate; eexists; split; reflexivity.
 Qed.
 
-Lemma deliver_nonreentrant : forall ev snap s,
+Lemma deliver_nonreentrant : forall fl ev snap s,
   reentrant_free snap -> (forall e, In e snap -> is_active s (se_label e) = true) ->
-  exists os, deliver snap ev s = (s, os) /\ invocations os = map (expected_invocation ev) snap /\
-             filter is_raised os = [] /\ filter sends_unsubscribe os = [].
+  exists its, deliver fl snap ev s = (s, its) /\
+    invocations (now_outs its) = map (expected_invocation ev) (filter (fun e => negb (deferred fl e)) snap) /\
+    later_of its = filter (deferred fl) snap /\ forallb benign (now_outs its) = true.
 Proof.
-  intros ev. induction snap as [|e r IH]; intros s Hnr Hact; simpl.
+  intros fl ev. induction snap as [|e r IH]; intros s Hnr Hact; simpl.
   - exists []. repeat split; reflexivity.
   - rewrite (Hact e) by now left.
-    destruct (invoke_nonreentrant s e (e_args ev) (build_kwargs e ev)) as [o1 [E1 [B1 C1]]]; [apply Hnr; now left|].
-    pose proof (invoke_invocations s e (e_args ev) (build_kwargs e ev)) as A1. rewrite E1 in *. simpl in A1.
-    destruct (IH s) as [o2 [E2 [A2 [B2 C2]]]].
-    + intros x Hx. apply Hnr. now right.
-    + intros x Hx. apply Hact. now right.
-    + rewrite E2. exists (o1 ++ o2). split; [reflexivity|].
-      rewrite invocations_app, !filter_app, A1, A2, B1, B2, C1, C2. repeat split; reflexivity.
+    destruct (IH s) as [i2 [E2 [A2 [L2 B2]]]]; [intros x Hx; apply Hnr; now right | intros x Hx; apply Hact; now right|].
+    destruct (deferred fl e); simpl.
+    + rewrite E2. exists (ILater e :: i2). simpl. rewrite L2. repeat split; assumption.
+    + destruct (invoke_nonreentrant s e (e_args ev) (build_kwargs e ev)) as [o1 [E1 B1]]; [apply Hnr; now left|].
+      pose proof (invoke_invocations s e (e_args ev) (build_kwargs e ev)) as A1. rewrite E1 in *. simpl in A1.
+      rewrite E2. exists (map INow o1 ++ i2). split; [reflexivity|].
+      rewrite now_outs_app, now_outs_map, invocations_app, A1, A2, later_of_app, later_of_map, forallb_app, B1, B2, L2.
+      repeat split; reflexivity.
+Qed.
+
+Lemma run_items_nonreentrant : forall ev its s, reentrant_free (later_of its) -> forallb benign (now_outs its) = true ->
+  exists g0 g1 g2, run_items ev s its = (s, g0, g1, g2) /\ forallb benign (g0 ++ g1 ++ g2) = true.
+Proof.
+  intros ev. induction its as [|[o|e] r IH]; intros s Hnr Hb; simpl in *.
+  - exists [], [], []. split; reflexivity.
+  - apply andb_true_iff in Hb. destruct Hb as [Hb1 Hb2].
+    destruct (IH s Hnr Hb2) as [g0 [g1 [g2 [E B]]]]. rewrite E.
+    rewrite !forallb_app in B. apply andb_true_iff in B. destruct B as [B0 B]. apply andb_true_iff in B. destruct B as [B1 B2].
+    destruct (is_immediate o); do 3 eexists; (split; [reflexivity|]); rewrite !forallb_app; simpl; rewrite ?Hb1, ?B0, ?B1, ?B2; reflexivity.
+  - destruct (invoke_nonreentrant s e (e_args ev) (build_kwargs e ev)) as [o1 [E1 B1]]; [apply Hnr; now left|].
+    rewrite E1. destruct (IH s) as [g0 [g1 [g2 [E B]]]]; [intros x Hx; apply Hnr; now right | exact Hb|]. rewrite E.
+    do 3 eexists. split; [reflexivity|].
+    rewrite !forallb_app in *. apply andb_true_iff in B. destruct B as [B0 B]. apply andb_true_iff in B. destruct B as [B1' B2].
+    assert (F : forall p, forallb benign (filter p o1) = true).
+    { intro p. apply forallb_forall. intros x Hx. apply filter_In in Hx. destruct Hx as [Hx _].
+      rewrite forallb_forall in B1. now apply B1. }
+    now rewrite B0, !F, B1', B2.
 Qed.
 
 Lemma attached_active : forall s sid e, Inv s -> In e (attached s sid) -> is_active s (se_label e) = true.
@@ -850,38 +996,69 @@ Proof.
   destruct (inv_att s I _ _ _ El H) as [o [A [B _]]]. unfold is_active. now rewrite A.
 Qed.
 
-Lemma on_event_nonreentrant : forall s ev, Inv s ->
+Lemma on_event_nonreentrant : forall fl s ev, Inv s ->
   In (e_sub ev) (keys (s_subs s)) -> nonreentrant_at s (e_sub ev) ->
-  exists os, on_event s ev = (s, os) /\ invocations os = map (expected_invocation ev) (attached s (e_sub ev)) /\
-             filter is_raised os = [] /\ filter sends_unsubscribe os = [].
+  exists os, on_event fl s ev = (s, os) /\
+    invocations os = map (expected_invocation ev) (filter (fun e => negb (deferred fl e)) (attached s (e_sub ev)))
+                  ++ map (expected_invocation ev) (filter (deferred fl) (attached s (e_sub ev))) /\
+    forallb benign os = true.
 Proof.
-  intros s ev I Hk Hnr. unfold on_event. rewrite (attached_lookup s _ Hk).
-  apply deliver_nonreentrant; [exact Hnr|]. intros e He. eapply attached_active; eauto.
+  intros fl s ev I Hk Hnr. unfold on_event. rewrite (attached_lookup s _ Hk).
+  destruct (deliver_nonreentrant fl ev (attached s (e_sub ev)) s Hnr) as [its [E [A [L B]]]];
+    [intros e He; eapply attached_active; eauto|].
+  rewrite E. destruct fl.
+  - exists (now_outs its). split; [reflexivity|]. split; [|exact B].
+    rewrite A. simpl. assert (F : forall l : list subent, filter (fun _ => false) l = []) by (induction l; auto).
+    now rewrite F, app_nil_r.
+  - destruct (run_items_nonreentrant ev its s) as [g0 [g1 [g2 [E2 B2]]]];
+      [rewrite L; intros x Hx; apply filter_In in Hx; apply Hnr; tauto | exact B|].
+    pose proof (run_items_invocations ev its s) as V. rewrite E2 in *. destruct V as [V0 [V1 V2]].
+    exists (g0 ++ g1 ++ g2). split; [reflexivity|]. split; [|exact B2].
+    now rewrite !invocations_app, V0, V1, V2, A, L, app_nil_r.
 Qed.
 
-Lemma exact_fanout_nonreentrant : forall fl ops ev, let s := final fl ops in
-  s_joined s = true -> In (e_sub ev) (keys (s_subs s)) -> nonreentrant_at s (e_sub ev) ->
-  invocations (snd (step fl s (OpEvent ev))) = map (expected_invocation ev) (attached s (e_sub ev)).
+Lemma benign_facts : forall os, forallb benign os = true ->
+  (forall x, ~ In (ORaised x) os) /\ filter sends_unsubscribe os = [].
 Proof.
-  intros fl ops ev s Hj Hk Hnr. rewrite step_snd, invocations_order, step_core_event by exact Hj.
-  destruct (on_event_nonreentrant s ev (final_inv fl ops) Hk Hnr) as [os [E [A _]]]. rewrite E. exact A.
+  intros os H. rewrite forallb_forall in H. split.
+  - intros x Hx. apply H in Hx. discriminate.
+  - induction os as [|o r IH]; simpl; [reflexivity|].
+    assert (Ho : benign o = true) by (apply H; now left). unfold benign in Ho. apply andb_true_iff in Ho.
+    destruct Ho as [_ Ho]. apply negb_true_iff in Ho. rewrite Ho. apply IH. intros x Hx. apply H. now right.
 Qed.
 
 Lemma isolation : forall fl ops ev, let s := final fl ops in
   s_joined s = true -> In (e_sub ev) (keys (s_subs s)) -> nonreentrant_at s (e_sub ev) ->
   fst (step fl s (OpEvent ev)) = s /\
-  invocations (snd (step fl s (OpEvent ev))) = map (expected_invocation ev) (attached s (e_sub ev)) /\
+  invocations (snd (step fl s (OpEvent ev)))
+    = map (expected_invocation ev) (filter (fun e => negb (deferred fl e)) (attached s (e_sub ev)))
+      ++ map (expected_invocation ev) (filter (deferred fl) (attached s (e_sub ev))) /\
   (forall x, ~ In (ORaised x) (snd (step fl s (OpEvent ev)))) /\
   filter sends_unsubscribe (snd (step fl s (OpEvent ev))) = [].
 Proof.
-  intros fl ops ev s Hj Hk Hnr. rewrite step_fst, step_snd, step_core_event by exact Hj.
-  destruct (on_event_nonreentrant s ev (final_inv fl ops) Hk Hnr) as [os [E [A [B C]]]].
-  rewrite E. simpl. split; [reflexivity|]. split; [|split].
-  - now rewrite invocations_order.
-  - intros x Hx. apply In_order in Hx.
-    assert (In (ORaised x) (filter is_raised os)) by (apply filter_In; split; [exact Hx | reflexivity]).
-    rewrite B in H. destruct H.
-  - rewrite filter_order_imm; [exact C|]. intros [] H; simpl in *; try discriminate; reflexivity.
+  intros fl ops ev s Hj Hk Hnr. rewrite step_fst, step_snd_event, step_core_event by exact Hj.
+  destruct (on_event_nonreentrant fl s ev (final_inv fl ops) Hk Hnr) as [os [E [A B]]].
+  rewrite E. simpl. destruct (benign_facts os B) as [R S]. tauto.
+Qed.
+
+Lemma filter_all : forall (A : Type) (p : A -> bool) l, (forall x, In x l -> p x = true) -> filter p l = l.
+Proof.
+  induction l as [|x r IH]; intros H; simpl; [reflexivity|]. rewrite (H x) by now left. f_equal. apply IH. intros; apply H; now right.
+Qed.
+Lemma filter_none : forall (A : Type) (p : A -> bool) l, (forall x, In x l -> p x = false) -> filter p l = [].
+Proof.
+  induction l as [|x r IH]; intros H; simpl; [reflexivity|]. rewrite (H x) by now left. apply IH. intros; apply H; now right.
+Qed.
+
+(* no coroutine handler among the attached ones (always so under Twisted): the plain equation *)
+Lemma exact_fanout_nonreentrant : forall fl ops ev, let s := final fl ops in
+  s_joined s = true -> In (e_sub ev) (keys (s_subs s)) -> nonreentrant_at s (e_sub ev) ->
+  (forall e, In e (attached s (e_sub ev)) -> deferred fl e = false) ->
+  invocations (snd (step fl s (OpEvent ev))) = map (expected_invocation ev) (attached s (e_sub ev)).
+Proof.
+  intros fl ops ev s Hj Hk Hnr Hd. destruct (isolation fl ops ev Hj Hk Hnr) as [_ [A _]]. fold s in A. rewrite A.
+  rewrite (filter_none _ (deferred fl)) by exact Hd.
+  rewrite filter_all; [now rewrite app_nil_r|]. intros x Hx. now rewrite (Hd x Hx).
 Qed.
 
 (* ------------------------------------------------------------------ C11: never after unsubscribe *)
@@ -915,10 +1092,11 @@ Proof.
      | exists o; rewrite lookup_assoc_set_other by exact Hne; tauto]).
 Qed.
 
-Lemma dead_step : forall s o l, dead s l -> dead (fst (step_core s o)) l.
+Lemma dead_step : forall fl s o l, dead s l -> dead (fst (step_core fl s o)) l.
 Proof.
-  intros s o l D. unfold step_core. destruct (is_message o && negb (s_joined s)); [exact D|].
-  destruct D as [ob [Ho Ha]]. destruct o; simpl.
+  intros fl s o l D. unfold step_core. destruct (is_message o && negb (s_joined s)); [exact D|].
+  destruct o; simpl; try (apply (on_event_preserves (fun s => dead s l)); [intros; now apply dead_unsubscribe | exact D]);
+    destruct D as [ob [Ho Ha]].
   - unfold api_subscribe. destruct (negb (s_transport s)); simpl; exists ob; tauto.
   - unfold api_subscribe_obj. destruct (negb (s_transport s)); [exists ob; tauto|].
     destruct ms as [|m r]; [exists ob; tauto|].
@@ -938,8 +1116,6 @@ Proof.
       now apply (dead_hold hs _ l ob).
     + destruct (rtype =? 34); [|exists ob; tauto].
       destruct (lookup request (s_unsubreqs s)); simpl; exists ob; tauto.
-  - unfold on_event. destruct (lookup (e_sub ev) (s_subs s)); [|exists ob; tauto].
-    apply (deliver_preserves (fun s => dead s l)); [intros; now apply dead_unsubscribe | exists ob; tauto].
   - unfold on_lose. destruct (s_joined s); [|exists ob; tauto].
     destruct (reject_subs (s_gathers s) (s_subreqs s)) as [[gs o1] hs]. simpl. now apply (dead_hold hs _ l ob).
 Qed.
@@ -971,10 +1147,10 @@ Lemma map_no_invoke : forall (A : Type) (f : A -> N) (r : result) (l : list A),
   invocations (map (fun p => ODoneU (f p) r) l) = [].
 Proof. induction l; simpl; auto. Qed.
 
-Lemma step_core_no_invoke : forall s o, (forall ev, o <> OpEvent ev) -> invocations (snd (step_core s o)) = [].
+Lemma step_core_no_invoke : forall fl s o, is_event o = false -> invocations (snd (step_core fl s o)) = [].
 Proof.
-  intros s o Hne. unfold step_core. destruct (is_message o && negb (s_joined s)); [reflexivity|].
-  destruct o; simpl.
+  intros fl s o Hne. unfold step_core. destruct (is_message o && negb (s_joined s)); [reflexivity|].
+  destruct o; simpl; try discriminate.
   - unfold api_subscribe. destruct (negb (s_transport s)); reflexivity.
   - unfold api_subscribe_obj. destruct (negb (s_transport s)); [reflexivity|].
     destruct ms as [|m r]; [reflexivity|].
@@ -991,35 +1167,43 @@ Proof.
       pose proof (complete_sub_no_invoke (s_gathers s) request rq (RErr (EAppError uri))) as X.
       destruct (complete_sub (s_gathers s) request rq (RErr (EAppError uri))) as [[gs o1] hs]. exact X.
     + destruct (rtype =? 34); [|reflexivity]. destruct (lookup request (s_unsubreqs s)); reflexivity.
-  - exfalso. eapply Hne. reflexivity.
   - unfold on_lose. destruct (s_joined s); [|reflexivity].
     pose proof (reject_subs_no_invoke (s_subreqs s) (s_gathers s)) as X.
     destruct (reject_subs (s_gathers s) (s_subreqs s)) as [[gs o1] hs]. simpl in *.
     rewrite invocations_app, X. apply (map_no_invoke _ (fun p => ur_obj (snd p))).
 Qed.
 
-Lemma dead_not_invoked : forall s o l, dead s l -> ~ In l (invoked_labels (snd (step_core s o))).
+Lemma on_event_invoked_dead : forall fl s ev l, dead s l -> ~ In l (invoked_labels (snd (on_event fl s ev))).
 Proof.
-  intros s o l D Hin.
-  assert (Hev : (exists ev, o = OpEvent ev) \/ forall ev, o <> OpEvent ev).
-  { destruct o; try (right; intros ev X; discriminate). left. eauto. }
-  destruct Hev as [[ev ->]|Hne].
-  - unfold step_core in Hin. simpl in Hin. destruct (negb (s_joined s)); [simpl in Hin; tauto|].
-    unfold on_event in Hin. destruct (lookup (e_sub ev) (s_subs s)) as [lst|]; [|simpl in Hin; tauto].
-    destruct (deliver_invoked (fun s => dead s l) (fun s0 t H => dead_unsubscribe s0 l t H) _ _ _ _ D Hin)
-      as [s' [D' A]].
-    apply dead_inactive in D'. congruence.
-  - unfold invoked_labels in Hin. rewrite step_core_no_invoke in Hin by exact Hne. destruct Hin.
+  intros fl s ev l D Hin. unfold on_event in Hin. destruct (lookup (e_sub ev) (s_subs s)) as [lst|]; [|simpl in Hin; tauto].
+  pose proof (deliver_invoked (fun s => dead s l) (fun s0 t H => dead_unsubscribe s0 l t H) fl lst ev s l D) as DI.
+  pose proof (deliver_tx_no_later lst ev s) as T.
+  assert (K : In l (invoked_labels (now_outs (snd (deliver fl lst ev s)))) \/ In l (labels (later_of (snd (deliver fl lst ev s))))).
+  { destruct fl.
+    - destruct (deliver Tx lst ev s) as [s1 its]. simpl in *. now left.
+    - clear T. destruct (deliver Aio lst ev s) as [s1 its]. simpl in *.
+      pose proof (run_items_invocations ev its s1) as V. destruct (run_items ev s1 its) as [[[s2 g0] g1] g2].
+      destruct V as [A [B C]]. simpl in Hin. unfold invoked_labels in *. rewrite !invocations_app, A, B, C, app_nil_r, map_app, in_app_iff in Hin.
+      destruct Hin as [Hin|Hin]; [now left | right].
+      rewrite map_map in Hin. unfold labels. exact Hin. }
+  destruct (DI K) as [s' [D' A]]. apply dead_inactive in D'. congruence.
+Qed.
+
+Lemma dead_not_invoked : forall fl s o l, dead s l ->
+  ~ In l (invoked_labels (snd (step fl s o))).
+Proof.
+  intros fl s o l D Hin. destruct (is_event o) eqn:Ee.
+  - destruct o; try discriminate. rewrite step_snd_event in Hin. unfold step_core in Hin. simpl in Hin.
+    destruct (negb (s_joined s)); [simpl in Hin; tauto|]. now apply (on_event_invoked_dead fl s ev l D).
+  - unfold invoked_labels in Hin. rewrite step_snd, invocations_order, step_core_no_invoke in Hin by exact Ee. destruct Hin.
 Qed.
 
 Lemma never_after_dead : forall fl ops s l, dead s l ->
   ~ In l (concat (map invoked_labels (snd (run fl s ops)))).
 Proof.
   induction ops as [|o r IH]; intros s l D; simpl; [tauto|].
-  pose proof (dead_step s o l D) as D1. pose proof (dead_not_invoked s o l D) as N1.
+  pose proof (dead_step fl s o l D) as D1. pose proof (dead_not_invoked fl s o l D) as N2.
   rewrite <- (step_fst fl) in D1.
-  assert (N2 : ~ In l (invoked_labels (snd (step fl s o)))).
-  { unfold invoked_labels in *. now rewrite step_snd, invocations_order. }
   destruct (step fl s o) as [s1 o1]. simpl in *. specialize (IH s1 l D1).
   destruct (run fl s1 r) as [s2 o2]. simpl in *. rewrite in_app_iff. tauto.
 Qed.
@@ -1027,11 +1211,11 @@ Qed.
 (* Subscription(l).unsubscribe() was really called (the application holds the object) and returned normally *)
 Definition unsub_returns (s : sess) (l : N) : Prop :=
   exists o, lookup l (s_objs s) = Some o /\ so_held o = true /\
-            forall e, ~ In (ORaised e) (snd (step_core s (OpUnsubscribe l))).
+            forall e, ~ In (ORaised e) (snd (api_unsubscribe s l)).
 
-Lemma unsub_returns_dead : forall s l, unsub_returns s l -> dead (fst (step_core s (OpUnsubscribe l))) l.
+Lemma unsub_returns_dead : forall s l, unsub_returns s l -> dead (fst (api_unsubscribe s l)) l.
 Proof.
-  intros s l [o [Ho [Hh Hr]]]. unfold step_core in *. simpl in *. unfold api_unsubscribe in *.
+  intros s l [o [Ho [Hh Hr]]]. unfold api_unsubscribe in *.
   rewrite Ho, Hh in *. simpl in *.
   destruct (so_active o); simpl in *; [|exfalso; eapply Hr; now left].
   destruct (lookup (so_id o) (s_subs s)) as [lst|]; [|exfalso; eapply Hr; now left].
@@ -1046,18 +1230,8 @@ Lemma never_after_unsubscribe : forall fl ops1 l ops2,
   let s2 := fst (step fl s1 (OpUnsubscribe l)) in
   ~ In l (concat (map invoked_labels (snd (run fl s2 ops2)))).
 Proof.
-  intros fl ops1 l ops2 s1 Hr s2. subst s2. rewrite step_fst. apply never_after_dead. now apply unsub_returns_dead.
-Qed.
-
-(* ... and not even for the rest of the event during whose dispatch another handler unsubscribed it *)
-Lemma dispatch_never_after : forall ev s snap invs s' l, Dispatch ev s snap invs s' ->
-  is_active s l = false -> ~ In l (map (fun x => fst (fst x)) invs).
-Proof.
-  induction 1; intros Hl; simpl; [tauto | auto |].
-  intros [Hx|Hx].
-  - simpl in Hx. congruence.
-  - revert Hx. apply IHDispatch. unfold after_handler.
-    apply (invoke_preserves (fun s => is_active s l = false)); [intros; now apply inactive_unsubscribe | exact Hl].
+  intros fl ops1 l ops2 s1 Hr s2. subst s2. rewrite step_fst. apply never_after_dead.
+  unfold step_core. simpl. now apply unsub_returns_dead.
 Qed.
 
 (* ------------------------------------------------------------------ C11: UNSUBSCRIBE exactly for the last handler *)
@@ -1066,6 +1240,9 @@ Proof. intros [] o; [reflexivity|]. destruct o; reflexivity. Qed.
 
 Lemma step_unsubscribe : forall fl s l, step fl s (OpUnsubscribe l) = (fst (api_unsubscribe s l), order fl (snd (api_unsubscribe s l))).
 Proof. intros. unfold step, step_core. simpl. now destruct (api_unsubscribe s l). Qed.
+
+Lemma not_event_is_event : forall o, (forall ev, o <> OpEvent ev) -> is_event o = false.
+Proof. intros [] H; try reflexivity. exfalso. eapply H. reflexivity. Qed.
 
 Lemma unsubscribe_iff_last : forall fl s l o,
   lookup l (s_objs s) = Some o -> so_held o = true ->
@@ -1146,7 +1323,8 @@ Lemma unsubscribe_only_source : forall fl s o,
   (forall l, o <> OpUnsubscribe l) -> (forall ev, o <> OpEvent ev) ->
   filter sends_unsubscribe (snd (step fl s o)) = [].
 Proof.
-  intros fl s o H1 H2. rewrite step_snd, filter_order_imm by apply sends_unsubscribe_imm.
+  intros fl s o H1 H2. rewrite step_snd by now apply not_event_is_event.
+  rewrite filter_order_imm by apply sends_unsubscribe_imm.
   unfold step_core. destruct (is_message o && negb (s_joined s)); [reflexivity|].
   destruct o; simpl.
   - unfold api_subscribe. destruct (negb (s_transport s)); reflexivity.
@@ -1179,7 +1357,7 @@ Lemma event_table_criterion : forall fl s ev, s_joined s = true ->
   (lookup (e_sub ev) (s_subs s) = Some [] -> step fl s (OpEvent ev) = (s, [])).
 Proof.
   intros fl s ev Hj. unfold step. rewrite step_core_event by exact Hj. unfold on_event. split; intros H; rewrite H; simpl.
-  - now rewrite order_single.
+  - reflexivity.
   - destruct fl; reflexivity.
 Qed.
 
@@ -1208,13 +1386,23 @@ Proof.
   intros fl ops ev s Hn. pose proof (final_inv fl ops) as I. fold s in I.
   destruct (s_joined s) eqn:Hj.
   - apply event_table_criterion; [exact Hj|]. apply lookup_None_keys. intro X. apply Hn. now apply (inv_ever s I).
-  - unfold step, step_core. simpl. rewrite Hj. simpl. now rewrite order_single.
+  - unfold step, step_core. simpl. rewrite Hj. reflexivity.
 Qed.
 
 
 (* ------------------------------------------------------------------ witnesses for the non-vacuity examples / regressions *)
-Definition w_any (det : option key) (b : behaviour) : handler := {| h_obj := false; h_details := det; h_sig := SigAny; h_beh := b |}.
-Definition w_strict : handler := {| h_obj := false; h_details := None; h_sig := SigOnly [0]; h_beh := BReturn |}.
+Definition w_any (det : option key) (b : behaviour) : handler :=
+  {| h_obj := false; h_details := det; h_sig := SigAny; h_check := false; h_ann := None; h_beh := b |}.
+Definition w_strict : handler :=
+  {| h_obj := false; h_details := None; h_sig := SigOnly [0]; h_check := false; h_ann := None; h_beh := BReturn |}.
+(* check_types handlers: def h(level: int, *values, **fields), def h(kind: str, *values), and a plain one that
+   unsubscribes the first *)
+Definition w_checked (ann : anntype) (vk : bool) : handler :=
+  {| h_obj := false; h_details := None; h_sig := {| sg_fixed := 1; sg_varargs := true; sg_kwonly := []; sg_varkw := vk |};
+     h_check := true; h_ann := Some ann; h_beh := BReturn |}.
+Definition w_checked_ops : list op :=
+  [OpSubscribe (w_checked TInt true) 1; OpSubscribe (w_any None (BUnsub [1])) 1; OpSubscribe (w_checked TStr false) 1;
+   OpSubscribed 1 71; OpSubscribed 2 71; OpSubscribed 3 71].
 Definition w_event (kw : kwargs) : event :=
   {| e_sub := 71; e_pub := 900; e_args := [1%Z]; e_kwargs := kw; e_publisher := None; e_topic := None; e_retained := None |}.
 (* DESIGN F-C11-1: three handlers on id 71, the first with details_arg "details" (key 3), the second a function
@@ -1270,3 +1458,7 @@ Proof.
     split; [now rewrite lookup_assoc_set_same|]. split; [|now rewrite lookup_assoc_set_same].
     intros sid' Hne. now rewrite lookup_assoc_set_other.
 Qed.
+
+(* for the examples: an output seen as (label, args, kwargs, did the function body run) *)
+Definition observable_invocation (o : out) : option (N * list Z * kwargs * bool) :=
+  match o with OInvoke l _ a kw ran => Some (l, a, kw, ran) | _ => None end.
